@@ -699,6 +699,8 @@ class BaseBackend(CodeGen):
             return self._solve_euler(func, args, T, dt, dts, y0, t0)
 
         if solver == 'heun':
+            if getattr(self, '_stateful_args', False):
+                return self._solve_heun(func, args, T, dt, dts, y0, t0, stateful_args=True)
             return self._solve_heun(func, args, T, dt, dts, y0, t0)
 
         # solver == 'scipy'
@@ -740,7 +742,8 @@ class BaseBackend(CodeGen):
         return state_rec
 
     @staticmethod
-    def _solve_heun(func: Callable, args: tuple, T: float, dt: float, dts: float, y: np.ndarray, t0):
+    def _solve_heun(func: Callable, args: tuple, T: float, dt: float, dts: float, y: np.ndarray, t0,
+                    stateful_args: bool = False):
 
         # preparations for fixed step-size integration
         idx = 0
@@ -764,7 +767,18 @@ class BaseBackend(CodeGen):
             # so the corrector evaluation below would otherwise overwrite `rhs`
             rhs = func(step, y, *args) + 0.0
             y_0 = y + dt * rhs
-            y += dt/2 * (rhs + func(step, y_0, *args))
+            if stateful_args:
+                # the vector field advances the ring buffers of discrete edge delays (held in `args`) on every call.
+                # The corrector evaluation looks one step ahead; what it did to the buffers is taken back, such that
+                # the buffers advance once per integration step
+                saved = [(a, a.copy() if isinstance(a, np.ndarray) else a.clone()) for a in args
+                         if isinstance(a, np.ndarray) or hasattr(a, 'clone')]
+                rhs_1 = func(step, y_0, *args) + 0.0
+                for a, a_old in saved:
+                    a[...] = a_old
+                y += dt/2 * (rhs + rhs_1)
+            else:
+                y += dt/2 * (rhs + func(step, y_0, *args))
             if has_dde:
                 args[0].update((i + 1) * dt, y)
 
